@@ -199,7 +199,9 @@ pub fn run(ctx: &mut Ctx) {
         // the new element opens with the second key (only), to exactly the first-key element
         if flat.len() > 1 {
             let (_, target) = &flat[rng.range(1, flat.len() - 1)];
-            let k2 = fresh_key(&mut rng);
+            // (every third time the second layer uses the SAME key as the first)
+            let k2 = if case % 3 == 0 { key.clone() } else { fresh_key(&mut rng) };
+            let same_key = case % 3 == 0;
             let set = gen::digest_set(&[target.digest]);
             let r1 = e.elide_removing_set_with_action(&set, &action(Act::Encrypt, &key));
             let mut r6 = rng.fork();
@@ -227,7 +229,7 @@ pub fn run(ctx: &mut Ctx) {
                         }
                         Err(err) => ctx.violation("second-layer/err", &format!("an element encrypted a second time does not open with the second key: {}", err), jhex(&e)),
                     }
-                    if x2.decrypt_subject(&key).is_ok() {
+                    if !same_key && x2.decrypt_subject(&key).is_ok() {
                         ctx.violation("second-layer/opens-with-first-key", "an element encrypted a second time under another key still opens with the first key alone", jhex(&e));
                     }
                 }
